@@ -214,6 +214,6 @@ fn directional(ctx: &Ctx, n_programs: u64) {
 pub fn run(ctx: &Ctx) {
     ctx.set_rule("programs from the tape decoder (incl. failing ones) printed in the canonical layout, 3 random layouts (terminator per statement, line breaks with optional comment after continuation tokens, blanks / tabs / CR / FF between tokens, comments with multi-byte text, blank lines, CR LF) and with `_` digit separators / \\xHH spellings: all five must give the same stdout, status and message, at the image of the position under the token map; directional matrix: for every (token, next token) context of valid programs, a line break after the token continues the statement iff it is one of the 25 continuation tokens, else it behaves exactly like `;`. Non-trivial = a layout with a continuation break, a comment or a `;` terminator, and every matrix cell; distinct = distinct source sets");
     ctx.replay_corpus(None);
-    layouts_check(ctx, ctx.n(6_000, 300_000));
+    layouts_check(ctx, ctx.n(12_000, 300_000));
     directional(ctx, ctx.n(400, 6_000));
 }
